@@ -196,6 +196,8 @@ class SymExec:
             if d in st.store:
                 v = st.store[d]
                 return v
+            if n.get("dk") == "Var" and "::" not in (n.get("qn") or "::"):
+                return ("glob", n.get("qn"))          # a file-scope object (rng, name tables): opaque
             raise Unsupported("variable %s" % n.get("name"))
         if k == "MemberExpr" and not n.get("arrow"):
             b = strip(kids(n)[0])
@@ -476,7 +478,24 @@ class SymExec:
                 else:
                     st.ret = ("err",)
                 continue
-            if k in ("ForStmt", "WhileStmt", "DoStmt", "SwitchStmt"):
+            if k in ("ForStmt", "WhileStmt"):
+                # a loop that only validates arguments (WRAP_DISCRETE): it stores nothing but its own counter
+                assigned = set()
+                for x in walk(s):
+                    if x["k"] in ("BinaryOperator", "CompoundAssignOperator") and (x.get("op") == "=" or x["k"] == "CompoundAssignOperator"):
+                        t = strip(kids(x)[0])
+                        assigned.add(t.get("declId") if t["k"] == "DeclRefExpr" else None)
+                    if x["k"] == "UnaryOperator" and x.get("op") in ("++", "--"):
+                        t = strip(kids(x)[0])
+                        assigned.add(t.get("declId") if t["k"] == "DeclRefExpr" else None)
+                    if x["k"] == "CallExpr" and x.get("callee") not in ASSUME_OK and x.get("callee") not in ERRORS:
+                        assigned.add(None)
+                if None in assigned:
+                    raise Unsupported("statement %s" % k)
+                for d in assigned:
+                    st.store[d] = ("unset",)
+                continue
+            if k in ("DoStmt", "SwitchStmt"):
                 raise Unsupported("statement %s" % k)
             # expression statement
             self.expr(s, st)
@@ -495,7 +514,7 @@ def subst_args(e, vals):
     op = e[0]
     if op == "a":
         return C(vals[e[1]]) if e[1] in vals else e
-    if op in ("c", "nan", "unset", "err"):
+    if op in ("c", "nan", "unset", "err", "glob"):
         return e
     if op == "prim":
         return ("prim", e[1], tuple(subst_args(x, vals) for x in e[2]))
